@@ -182,3 +182,23 @@ def gen_observer(cfg, rs, enabled):
     if k == 'switch_spec_and_back':
         op['name'] = other_cost(cfg, rs)
     return op
+
+
+def add_mode_scopes(cfg, ops, rm):
+    """some whole-model mode switches become switches of a part of the model, and one such switch may be added:
+    the model is then in a mixed training status (frozen BatchNorm statistics, one frozen layer). Drawn from a
+    stream of its own, so the rest of the generated case does not depend on it."""
+    if not rm.chance(0.3):
+        return ops
+
+    def scope():
+        return rm.choice(['bn', 'bn', 'leaf:%d' % rm.randint(0, 40)])
+    out = []
+    for o in ops:
+        if o['op'] == 'set_mode' and rm.chance(0.5):
+            o = dict(o, scope=scope())
+        out.append(o)
+    if rm.chance(0.6):
+        out.insert(rm.randint(0, len(out)), {'op': 'set_mode', 'mode': rm.choice(['eval', 'eval', 'train']),
+                                             'scope': scope()})
+    return out
